@@ -783,8 +783,8 @@ def c11(run):
     run.mc('MCSigDigest', sigdigest_cfg(by_key=False, invs='LayoutConsistent'), name='sens_frame_by_signer_version', workers=1, expect_violation='LayoutConsistent')
     run.mc('MCSigDigest', sigdigest_cfg(by_key=False, invs='FingerprintFramingAgrees'), name='sens_fingerprint_framing', workers=1, expect_violation='FingerprintFramingAgrees')
     run.mc('MCTextCanon', textcanon_cfg(run.q(6, 8), [2, 3]), name='mc_textcanon')
-    g = run.mc('MCSigDigest', sigdigest_cfg(invs='GenDigest'), name='gen', workers=1, count=False)
-    cases = [c for c in g.cases if c['kind'] == 'digest']
+    g = run.mc('MCSigDigest', sigdigest_cfg(invs='GenDigest GenSalt'), name='gen', workers=1, count=False)
+    cases = [c for c in g.cases if c['kind'] in ('digest', 'saltlen')]
     if run.replay and run.replay.get('source_case'):
         cases = [run.replay['source_case']]
     for i, c in enumerate(cases):
@@ -800,7 +800,7 @@ def c11(run):
                 'MessageBuilder equals it, and (b) a signature assembled over the independent preimage verifies in the crate with that same digest '
                 '(recording VerifyingKey) - for RSA and EdDSA v4, Ed25519 and RSA v6, 4-5 hash algorithms, 3-4 hashed-subpacket sets (empty, minimal, '
                 'rich, 60 kB, 70 kB) and signer/signee version combinations (v4 signing v6 keys and the reverse)')
-    run.add_samples([c for c in cases if c['typ'] in (16, 24)][:2])
+    run.add_samples([c for c in cases if c.get('typ') in (16, 24)][:2])
     run.add_samples(oks[:2])
     run.assumptions = [SYMBOLIC, 'subpackets are serialised by the crate (their wire form is decided by C05/C17)', 'v2/v3 certification and key signatures: the crate offers no verification entry point; recorded as not constrained']
     run.notes['trusted_base'] = TRUSTED
